@@ -300,9 +300,24 @@ def run_json_once(cmd, reqs, timeout=1800, env=None):
 
 
 def run_prog(reqs, release=False, watchdog_ms=10000, **kw):
+    """Every request that the harness reports as hung gets a second chance: alone in a fresh process with a
+    watchdog eight times as long (at least 30 s).  A render that really does not terminate hangs again; a
+    render that was only starved on a loaded machine answers, and that answer is used - so a busy box cannot
+    turn into an alarm.  (C01 has its own second-chance logic and passes second_chance=False.)"""
+    second = kw.pop("second_chance", True)
     env = dict(ENV)
     env["MJVERIF_WATCHDOG_MS"] = str(watchdog_ms)
-    return run_json([bin_path("prog", release)], reqs, env=env, **kw)
+    res = run_json([bin_path("prog", release)], reqs, env=env, **kw)
+    if second:
+        hung = [i for i, r in enumerate(res) if isinstance(r, dict) and r.get("hang")][:40]
+        if hung:
+            env2 = dict(ENV)
+            env2["MJVERIF_WATCHDOG_MS"] = str(max(30000, 8 * watchdog_ms))
+            for i in hung:
+                r2 = run_json_once([bin_path("prog", release)], [reqs[i]], env=env2)
+                if r2 and isinstance(r2[0], dict) and not r2[0].get("hang") and "crash" not in r2[0]:
+                    res[i] = r2[0]
+    return res
 
 
 def run_impl(binname, cases, release=False, **kw):
